@@ -13,6 +13,7 @@ import (
 var monitors = map[string]func(*vk.Ctx){
 	"smoke": runSmoke,
 	"smoketx": runSmokeTx,
+	"dbg19":   runDbg19,
 	"C01":   runC01,
 	"C02":   runC02,
 	"C03":   runC03,
